@@ -91,6 +91,10 @@ func (r *run) batteryScripts() [][]byte {
 			s = append(s, callScript(r.prod.khash[i], "get", longKey))
 			s = append(s, callScript(r.prod.khash[i], "get", kKeys[(int(r.P.BC.BlockHeight())+i)%len(kKeys)]))
 			s = append(s, callScript(r.prod.khash[i], "find", []byte{0x01}))
+			// (backwards searches under prefixes that are themselves keys and prefixes of other keys)
+			s = append(s, callScript(r.prod.khash[i], "findLast", []byte{0x01}))
+			s = append(s, callScript(r.prod.khash[i], "findLast", []byte{0x01, 0x02}))
+			s = append(s, callScript(r.prod.khash[i], "findLast", []byte{}))
 		}
 	}
 	return s
